@@ -203,6 +203,7 @@ type entry struct {
 }
 
 type trial struct {
+	postClose bool
 	c         *core.Ctx
 	cs        caseSpec
 	tailClose bool
@@ -285,6 +286,29 @@ func (t *trial) run() {
 		hs := make([]netty.Handler, len(o.Hs))
 		for i, p := range o.Hs {
 			hs[i] = t.pool[p].h
+		}
+		if t.rng.Intn(4) == 0 && len(hs) >= 1 {
+			// the same operation with a value that implements none of the handler interfaces among the
+			// handlers: the call is rejected (panics) and must not have added anything
+			bad := append([]netty.Handler{}, hs...)
+			at := t.rng.Intn(len(bad) + 1)
+			bad = append(bad[:at], append([]netty.Handler{struct{ notAHandler int }{k}}, bad[at:]...)...)
+			p := t.guard(func() {
+				switch o.Kind {
+				case opFirst:
+					t.pl.AddFirst(bad...)
+				case opLast:
+					t.pl.AddLast(bad...)
+				default:
+					t.pl.AddHandler(o.Pos, bad...)
+				}
+			})
+			c.Count("rejected_operations", 1)
+			if p == nil {
+				c.Violation("C03:invalid-handler-accepted", cs.ID, fmt.Sprintf("operation #%d %s with a value implementing no handler interface at argument %d did not fail", k, o, at), t.detail(nil))
+				return
+			}
+			check(fmt.Sprintf("rejected operation #%d %s (invalid handler at argument %d of %d)", k, o, at, len(bad)))
 		}
 		if p := t.guard(func() {
 			switch o.Kind {
@@ -429,6 +453,12 @@ func (t *trial) routeAll() {
 			last = fwdPlan(t.rng.Intn(nina))
 		}
 		t.fire(entry{"channel-close", kInactive, -1}, last, true)
+	}
+	// user events after the channel was closed: every entry point still routes them the same way
+	t.postClose = true
+	for _, e := range []entry{{"channel-trigger", kEvent, 0}, {"fire-event", kEvent, 0}, {"ctx-trigger", kEvent, 0}} {
+		t.fire(e, fwdPlan(full), false)
+		t.c.Count("events_after_close", 1)
 	}
 }
 
@@ -620,6 +650,9 @@ func (t *trial) fire(e entry, plan []act, final bool) {
 	}
 
 	// 3. close
+	if t.postClose {
+		return
+	}
 	closes := t.rig.T.CloseCount()
 	switch {
 	case s.closed && (closes != 1 || t.rig.Ch.IsActive()):
